@@ -139,6 +139,33 @@ def specBroadcast2 (a b : Shape) : Option Shape :=
   then some ((List.range n).reverse.map (fun k => max (axR a k) (axR b k)))
   else none
 
+/-! #### NumPy's rule with zero extents allowed (for positive extents "the extent that is not 1" is the maximum) -/
+
+/-- NumPy's rule for one axis, zero extents included: compatible iff equal or one of them 1; the result is the
+    extent that is not 1 (so 0 with 1 gives 0) -/
+def npBc1 (a b : Nat) : Option Nat :=
+  if a = b ∨ a = 1 ∨ b = 1 then some (if a = 1 then b else a) else none
+
+/-- NumPy's rule on the reversed (trailing-axis-first) shapes -/
+def npRev : List Nat → List Nat → Option (List Nat)
+  | [], bs => some bs
+  | a :: as, [] => some (a :: as)
+  | a :: as, b :: bs =>
+    match npBc1 a b with
+    | none => none
+    | some z => (npRev as bs).map (z :: ·)
+
+/-- NumPy's `broadcast_shapes` of two shapes, zero extents included -/
+def npBroadcast2 (a b : Shape) : Option Shape := (npRev a.reverse b.reverse).map List.reverse
+
+/-- some aligned axis pairs an extent 0 with an extent 1 (reversed shapes) -/
+def zeroOneRev : List Nat → List Nat → Bool
+  | a :: as, b :: bs => (a == 0 && b == 1) || (a == 1 && b == 0) || zeroOneRev as bs
+  | _, _ => false
+
+/-- the input class of known finding C06.broadcast-zero-extent-with-one -/
+def ZeroWithOne (a b : Shape) : Bool := zeroOneRev a.reverse b.reverse
+
 /-- NumPy `broadcast_to` element rule: drop the prepended axes of the destination index, put 0 on stretched
     (extent-1) source axes -/
 def specBroadcastIdx (src : Shape) (d : Idx) : Idx :=
